@@ -117,7 +117,12 @@ pub fn run(args: &Args, prop: &str) {
             }
             dags.push(d.clone())
         });
-        let ex = run_all(&mut rep, name, &dags, oracles, false, |d, f| {
+        let filter: crate::props::simrun::Filter = if prop == "C04" {
+            |c, _| matches!(c, "action-view" | "lazy-merge-view" | "action-parent" | "hello-vs-collapse" | "hello" | "action-sink" | "action-outcome")
+        } else {
+            |c, _| matches!(c, "action-outcome" | "action-sink" | "failed-op-changed-state" | "heads" | "cmdset" | "facts" | "effects" | "history-shrank")
+        };
+        let ex = run_all(&mut rep, name, &dags, oracles, false, filter, |d, f| {
             bounded_histories(d, bound, false, |h| {
                 let base = base_events(h);
                 for s in &scr {
